@@ -182,6 +182,35 @@ def gen_cases(ctx, n):
         for mode in ("t", "xqf", "tq", "xf"):
             out.append(Case("cli7 %s %s %s" % (mode, "bad" if badi is not None else "good", arch.hex()),
                             tags={"cli", "mode=" + mode}, note="bad" if badi is not None else None))
+    # (5) members that cannot be decoded at all: a genuine but unsupported method (-lh2-, -lh3-, ...), a MacLHA member cut inside its
+    # first 128 decoded bytes. No bytes are produced, so the verdict must be bad - in the library and in the tool's exit status
+    def judge_undecodable(c_out):
+        if c_out.startswith(("CRASH", "TIMEOUT")):
+            return "implementation crashed: " + c_out[:120]
+        for tok in c_out.split(" live=")[0].split(";"):
+            if re.match(r"c(?!0$)", tok) and tok != "c0":
+                return "check of a member that cannot be decoded did not report failure (result token %r)" % tok
+            m = re.match(r"x1", tok)
+            if m:
+                return "extract of a member that cannot be decoded reported success"
+        return None
+    for k in range(max(6, n // 2)):
+        kk = r.random()
+        data = S.rand_bytes(r, r.choice([1, 20, 200]))
+        if kk < 0.55:
+            bad = stored_member(data, name=b"odd.bin", level=r.choice([0, 1, 2]), method=r.choice(A.ODD_METHODS), length=r.choice([len(data), 1000]))
+        else:
+            short = S.rand_bytes(r, r.choice([0, 1, 60, 127]))
+            f = E.Fields(level=1, method=r.choice([b"-lh0-", b"-lh5-", b"-lz5-"]), clen=len(short), length=r.choice([128, 200, 5000]),
+                         crc=r.randrange(65536), name=b"mac.bin", os_type=0x6d)
+            bad = E.encode(f) + short
+        for op_ in ("c", "x1"):
+            out.append(Case(A.rdr_op(r.choice(A.KINDS), "eod", ["n", op_], bad), judge=judge_undecodable, tags={"undecodable"}, note="bad"))
+        g1 = stored_member(S.rand_bytes(r, 9), name=b"first")
+        g2 = stored_member(S.rand_bytes(r, 30), name=b"last")
+        arch = r.choice([g1 + bad + g2, bad + g2, g1 + bad, bad])
+        for mode in ("t", "tq", "xqf"):
+            out.append(Case("cli7 %s bad %s" % (mode, arch.hex()), tags={"cli", "mode=" + mode, "undecodable"}, note="bad"))
     return out
 
 
